@@ -12,6 +12,7 @@ import Mahotas.Proofs.C15Thin
 import Mahotas.Proofs.C15Model
 import Mahotas.Proofs.C15Idem
 import Mahotas.Proofs.C15Hull
+import Mahotas.Proofs.C15Graham
 open Mahotas Mahotas.C15
 
 /-- **thin ⊆ input.** Every pixel set in the model of `mahotas.thin` (crop to the bounding box, zero
@@ -96,12 +97,26 @@ theorem C15_euler_model_is_gray_sum (b : Bin) (conn8 : Bool) : eulerModel4 b con
 
 /-- **Hull corners are distinct foreground pixels.** Every corner returned by the model of
 `_convex.convexhull` (sort, two in-place monotone-chain scans) is a set pixel of the image, and no
-corner is returned twice — for every image. (Convex position and containment of all foreground
-pixels are checked on the real output by `hullOK`; see `Proofs/C15Graham.lean` for what is proved
-about the scan itself.) -/
+corner is returned twice — for every image. -/
 theorem C15_hull_corners_distinct_foreground (b : Bin) :
     (∀ p ∈ hullModel b, b.get p.1 p.2 = true) ∧ (hullModel b).Nodup :=
   ⟨fun p hp => foreground_get b p (grahamModel_subset _ p hp), grahamModel_nodup _ (foreground_nodup b)⟩
+
+/-- **The hull model satisfies the statement's predicate** — the very predicate `hullOK` that the
+check evaluates on the corners returned by the real `convexhull` — for every image: the corners of
+the model (`std::sort`, forward monotone-chain scan, rotation, reverse scan on the rest) are
+foreground pixels, pairwise distinct, returned iff there is a foreground pixel; every foreground
+pixel (hence every corner: weak convex position) lies on one and the same side of, or on, every
+directed edge of the closed corner polygon (containment); and the lexicographically smallest and
+largest foreground pixels are corners. Proved from the scan's loop invariant (`ScanInv`: the stack
+is strictly monotone, turns strictly one way, and every processed point lies on the inner side of
+every stack edge) and one geometric lemma (`halfplane_trans`). -/
+theorem C15_hull_correct (b : Bin) : hullOK (foreground b) (hullModel b) = true :=
+  hullModel_hullOK b
+
+/-- the same for an arbitrary list of distinct points handed to `inPlaceGraham` -/
+theorem C15_graham_scan_correct (pts : List Pt) (hnd : pts.Nodup) : hullOK pts (grahamModel pts) = true :=
+  grahamModel_hullOK pts hnd
 
 /-- **fill_convexhull ⊇ input** for the model of `polygon.fill_convexhull` on boolean images (hull
 corners, scan-line `fill_polygon` in the float arithmetic of the Python code, then
